@@ -8,12 +8,12 @@ PYTHONPATH=$WT/src timeout 120 /venv/bin/python $M/demo.py >/dev/null 2>&1; D1=$
 git checkout -q -- .
 PYTHONPATH=$WT/src timeout 120 /venv/bin/python $M/demo.py >/dev/null 2>&1; D0=$?
 echo "tests: $T | demo with change: exit $D1 | demo without: exit $D0"
+cd $WT && git apply $M/patch.diff
 cd /verif
-git -C /repo apply $M/patch.diff || { echo "does not apply to /repo"; exit 9; }
 START=$(date +%s)
-./run.sh $P $TIER > /var/tmp/mutest_$ID.log 2>&1; RC=$?
+VF_REPO=$WT VF_EVIDENCE_DIR=/var/tmp/mutest_ev_$ID ./run.sh $P $TIER > /var/tmp/mutest_$ID.log 2>&1; RC=$?
 END=$(date +%s)
-git -C /repo checkout -- .
+git -C $WT checkout -q -- .
 V=$(grep -c "^VIOLATION" /var/tmp/mutest_$ID.log)
 echo "check $P $TIER on $ID: exit $RC, $V VIOLATION lines, $((END-START))s"
 grep -A1 "^VIOLATION" /var/tmp/mutest_$ID.log | head -4 | cut -c1-300
